@@ -41,6 +41,21 @@ def main():
             if not np.shares_memory(vg, b.grad):
                 print(json.dumps(dict(confirmed=True, input=prog, observed=f"np.shares_memory(v.grad, b.grad) is False; b.grad.strides={b.grad.strides}, b.data.strides={b.data.strides}", required="v.grad shares memory with b.grad")))
                 return
+    # views taken after backward (they belong to the same epoch as long as the base is not used in a non-view op)
+    for order in ("C", "F"):
+        for (vn, vf) in views:
+            data = np.asarray(rng.uniform(1, 2, size=(2, 3)), order=order)
+            b = mg.tensor(data, copy=False)
+            c = np.asarray(rng.uniform(1, 2, size=(2, 3)), order=("F" if order == "C" else "C"))
+            (b * c).sum().backward()
+            v = vf(b)
+            if not np.shares_memory(v.data, b.data) or b.grad is None:
+                continue
+            prog = f"b = mg.tensor(np.asarray(<2x3>, order='{order}'), copy=False); (b * <2x3 array of the other memory order>).sum().backward(); v = {vn}"
+            vg = v.grad
+            if vg is None or not np.shares_memory(vg, b.grad):
+                print(json.dumps(dict(confirmed=True, input=prog, observed=f"v.grad {'is None' if vg is None else 'does not share memory with b.grad'}; b.grad.strides={b.grad.strides}, b.data.strides={b.data.strides}", required="v.grad is the view of b.grad and shares its memory")))
+                return
     print(json.dumps(dict(confirmed=False)))
 
 
